@@ -1032,6 +1032,19 @@ func (w *gWorld) newAgent() (*Agent, error) {
 		rules = append(rules, AddressRewriteRule{External: []string{gIP("x6.80").String()}, AsCandidateType: CandidateTypeServerReflexive,
 			Mode: AddressRewriteReplace, Networks: []NetworkType{NetworkTypeUDP4}})
 	}
+	if strings.HasPrefix(c.sr, "pin") {
+		// a srflx rule pinned to the local wildcard address: External = 1..3 addresses in the given order,
+		// possibly of mixed families and including a location-tracked (IPv6 link-local) one
+		mode, exts, _ := strings.Cut(c.sr, ":")
+		r := AddressRewriteRule{Local: "0.0.0.0", AsCandidateType: CandidateTypeServerReflexive, Mode: AddressRewriteReplace}
+		if mode == "pina" {
+			r.Mode = AddressRewriteAppend
+		}
+		for _, e := range gList(exts) {
+			r.External = append(r.External, gIP(e).String())
+		}
+		rules = append(rules, r)
+	}
 	if len(rules) > 0 {
 		opts = append(opts, WithAddressRewriteRules(rules...))
 	}
